@@ -33,6 +33,13 @@ tuple / list containers, vehicles as int / list / tuple, depot as list); S - lin
 tolerance; O - degree / n_routes / k / max_iter / max_no_improve corners and sweeps, on_progress; H - rare internal events
 read off the logs (insertion_cost fallback branch, stale arrival times, regret with < k options, sync_removal fallback,
 ALNS accept / reject / weight update ...) are counted and searched for until each has been seen.
+
+Round-3 families: W - work volume per loop (one route with 10^4 stops, 2^12 insertion positions for one customer, 10^4
+vehicles with the customers on the last ones, 140 customers placed by one insertion call, ALNS loops up to 10^4 iterations
+with the iteration count replayed from the recorded scores); A2 - the caller edits the state object / the customers list
+in place between calls (next call vs the same call on a deep copy / on fresh objects, and vs the oracle of the edited
+instance); X - float extremes (finite values near 1e308 whose sums overflow, +-2^60, denormals, -0.0; inf / NaN entries,
+for which raising is accepted). 
 """
 import copy as _copy
 import json
@@ -176,6 +183,75 @@ def gen_inst_real(rng):
     return inst
 
 
+# inside the quantifier (finite, moderate magnitude): judged.  Outside (POLICY_X a-c: inf / NaN, |v| >= 1e300 or overflowing sums,
+# +-2^60 beyond the 2^53 exactness of the float results): generated, run, counted, never judged.
+EXTREME_INSIDE = [-0.0, 0.0, 5e-324, -5e-324, 1e-300, 2.5e-10]
+EXTREME = [1e308, -1e308, 1.7e308, 8.9e307, -8.9e307, 1e154, 2.0**60, -(2.0**60), 2.0**60 + 2.0**9] + EXTREME_INSIDE
+NONFINITE = [float("inf"), float("-inf"), float("nan")]
+
+
+def outside_quantifier(case):
+    """POLICY_X: observation-only cases"""
+    inst = case["inst"]
+    vals = [v for c in inst["customers"] for v in (c["x"], c["y"], c["demand"], c["service_time"], c["tw_start"], c["tw_end"]) if v is not None]
+    vals += list(inst["depot"]) + [cap for cap in inst["caps"] if cap is not None] + list((case.get("weights") or {}).values())
+    return any((not _finite(v)) or abs(v) >= 2.0**53 for v in vals)
+
+
+def gen_inst_extreme(rng, nonfinite=False, inside=False):
+    """class X: float extremes.  Finite coordinates / times / demands near 1e308 whose sums overflow to inf, +-2^60 next to
+    small values (updates below the float spacing), denormals, negative zero; with `nonfinite` also inf / NaN entries
+    (then an exception is an acceptable answer).  Always at least one multi-vehicle customer when there are >= 2 vehicles.
+    Judged by the Python oracle in float arithmetic (same operations in the documented order), no Coq."""
+    inst = gen_inst(rng, False, sizes=[1, 2, 3, 3, 4, 5])
+    if len(inst["caps"]) < 2:
+        inst["caps"] = (inst["caps"] + [None, None])[:2]
+        inst.pop("veh_ids", None)
+    pool = EXTREME_INSIDE if inside else EXTREME + (NONFINITE * 2 if nonfinite else [])
+    cs = inst["customers"]
+    hit = False
+    for c in cs:
+        for f in ("x", "y"):
+            if rng.random() < 0.35:
+                c[f] = rng.choice(pool)
+                hit = True
+        if rng.random() < 0.15:
+            c["demand"] = abs(rng.choice(pool + ([] if inside else [1e308])))
+        if rng.random() < 0.15:
+            c["service_time"] = abs(rng.choice(pool)) if not nonfinite else rng.choice(pool)
+        if rng.random() < 0.15:
+            c["tw_start"] = rng.choice(pool)
+            c["tw_end"] = rng.choice([None, c["tw_start"], 1e308, 0.0] + ([float("nan"), float("-inf")] if nonfinite else []))
+    if not hit:
+        rng.choice(cs)["x"] = rng.choice(pool)
+    rng.choice(cs)["required_vehicles"] = 2  # the sync code paths must see the extreme costs
+    far = rng.choice(cs)
+    if rng.random() < 0.5:
+        far["required_vehicles"] = rng.choice([2, 2, 3])
+        far["x"] = rng.choice(pool if inside else [1e308, -1e308, 1.7e308] + (NONFINITE if nonfinite else []))
+    if rng.random() < 0.2:
+        inst["depot"] = [rng.choice(pool), rng.choice([0.0, -0.0, 3.0])]
+    if rng.random() < 0.3:
+        inst["caps"] = [rng.choice([cap, 5e-324] + ([] if inside else [1e308]) + ([float("nan")] if nonfinite else [])) for cap in inst["caps"]]
+    inst["real"] = True
+    inst["num"] = "asis"
+    inst["nonfinite"] = any(not _finite(v) for c in cs for v in (c["x"], c["y"], c["demand"], c["service_time"], c["tw_start"])) \
+        or any(c["tw_end"] is not None and not _finite(c["tw_end"]) for c in cs) \
+        or any(not _finite(v) for v in inst["depot"]) or any(cap is not None and not _finite(cap) for cap in inst["caps"])
+    return inst
+
+
+def gen_weights_extreme(rng, inside=False):
+    w = dict(DEFAULT_W)
+    if inside:
+        if rng.random() < 0.4:
+            w[rng.choice(["distance_weight", "tw_penalty", "capacity_penalty", "sync_penalty", "vehicle_weight"])] = rng.choice([0.0, -0.0, 0.5, 2.5e-10])
+        return w
+    if rng.random() < 0.4:
+        w[rng.choice(["distance_weight", "tw_penalty", "capacity_penalty", "sync_penalty", "vehicle_weight"])] = rng.choice([1e300, 1e-300, 0.0, 2.0**60])
+    return w
+
+
 def gen_inst_line(n, nveh=3):
     """class S: depot at 0, customer i at x = i (or x = 3i, y = 4i), unit demands, wide windows on every 7th customer,
     every 50th customer needs two vehicles"""
@@ -247,11 +323,19 @@ def gen_seq_case(rng, big=False, family="base"):
         inst = gen_inst_scaled(rng, big)
     elif family == "real":
         inst = gen_inst_real(rng)
+    elif family == "extreme":
+        inside = rng.random() < 0.5
+        inst = gen_inst_extreme(rng, nonfinite=not inside and rng.random() < 0.3, inside=inside)
     else:
         inst = gen_inst(rng, big)
     case["inst"] = inst
-    case["weights"] = weights_for(rng, inst) or dict(DEFAULT_W)
+    case["weights"] = gen_weights_extreme(rng, inside) if family == "extreme" else (weights_for(rng, inst) or dict(DEFAULT_W))
     case["plan"] = gen_plan(rng, 30, corners=family in ("corners", "hand", "state0"))
+    if family == "extreme":
+        # the sync operators come early and often; hand-built or from_problem start
+        case["plan"] = [[rng.choice(["sync_aware_insertion", "greedy_insertion", "regret_insertion"]), {}]] + gen_plan(rng, 14, first=False)
+        case["start"] = rng.choice(["from_problem", "hand"])
+        case["coq"] = False
     if family == "hand":
         # the state is built directly with the VRPState dataclass (no precomputed matrix) at the start and / or re-built
         # from its public fields before some operators; `twin`: the same run from from_problem must agree step by step
@@ -290,7 +374,106 @@ def gen_big_seq_case(rng, n):
             "coq": n <= 20, "rebuild_at": [len(plan) // 2]}
 
 
+A2_OPS = ["@move_out", "@swap", "@recoord", "@append_customer"]
+
+
+def gen_a2_case(rng, big=False):
+    """class A2: between operator calls the CALLER edits the state object in place through its public fields (moves a
+    customer to unassigned, swaps two stops, replaces a Customer of a hand-built state by one with other coordinates,
+    appends a customer) and refreshes the arrival times; the next operator on the edited object must agree with the same
+    operator on a deep copy of it and with the oracle for the edited instance."""
+    case = gen_seq_case(rng, big, "base")
+    case["family"] = "inplace"
+    case["start"] = rng.choice(["hand", "hand", "from_problem"])
+    plan = []
+    for stp in gen_plan(rng, 24, corners=False):
+        plan.append(stp)
+        if rng.random() < 0.3:
+            ops = A2_OPS if case["start"] == "hand" else A2_OPS[:2]  # a from_problem state carries its own distance matrix
+            plan.append([rng.choice(ops), {"r": rng.randrange(10**6)}])
+    case["plan"] = plan
+    case["coq"] = False
+    case.pop("twice", None)
+    return case
+
+
+def gen_work_seq_cases(rng, thorough=False):
+    """class W: instances that maximise the iteration count of one loop each (answers by construction / by the oracle):
+    stops of one route (compute_arrival_times, time_window_violation, worst_removal ranking, removal filters): 10^4+;
+    insertion positions scanned for one customer (_insertion_cost loop of greedy / regret / sync_aware): 2^12+;
+    vehicles (every `for v in range(len(...))`): 10^4+; customers inserted one by one by greedy / regret passes: 2^7+."""
+    out = []
+    # (a) one route with n stops, removal operators only (linear work), hand-built
+    for n in ([10500] if not thorough else [10500, 70000]):
+        inst = gen_inst_line(n, nveh=2)
+        ids = list(range(1, n + 1))
+        un = [ids[-1]]
+        routes = [ids[:-1], []]
+        plan = [["worst_removal", {"degree": 0.0002}], ["related_removal", {"degree": 0.0002}], ["random_removal", {"degree": 0.0003}],
+                ["sync_removal", {}], ["route_removal", {"n_routes": 1}]]
+        out.append({"kind": "vrp_seq", "family": f"work-stops{n}", "inst": inst, "weights": dict(DEFAULT_W), "seed": rng.randrange(10**6),
+                    "start": "state0", "state0": {"routes": routes, "unassigned": un}, "plan": plan, "coq": False, "no_ic": True,
+                    "loops": {"route stops": n - 1}})
+    # (b) 2^12+ insertion positions for the one unassigned (two-vehicle) customer
+    for n in ([4200] if not thorough else [4200, 8300]):
+        inst = gen_inst_line(n, nveh=2)
+        inst["caps"] = [None, None]
+        inst["customers"][n // 2]["required_vehicles"] = 2
+        cid = inst["customers"][n // 2]["id"]
+        ids = [i for i in range(1, n + 1) if i != cid]
+        routes = [ids[:-5], ids[-5:]]
+        plan = [[rng.choice(["greedy_insertion", "sync_aware_insertion", "regret_insertion"]), {}], ["random_removal", {"degree": 0.0003}]]
+        out.append({"kind": "vrp_seq", "family": f"work-positions{n}", "inst": inst, "weights": dict(DEFAULT_W), "seed": rng.randrange(10**6),
+                    "start": "state0", "state0": {"routes": routes, "unassigned": [cid]}, "plan": plan, "coq": False, "no_ic": True,
+                    "loops": {"insertion positions scanned for one customer": n - 5}})
+    # (c) many vehicles
+    for nv in ([130, 10001] if not thorough else [130, 4100, 10001, 100001]):
+        inst = gen_inst(rng, False, sizes=[4, 5])
+        inst["caps"] = [rng.choice([8, 20, None])] * nv
+        inst.pop("veh_ids", None)
+        inst["num"] = "float"
+        # the customers sit on the LAST vehicles (hand-built state), so every per-vehicle loop has to reach them
+        routes = [[] for _ in range(nv)]
+        un = []
+        for k, c in enumerate(inst["customers"]):
+            if k == 0:
+                un.append(c["id"])
+            else:
+                routes[nv - 1 - (k % 3) * (nv // 7)].append(c["id"])
+                if c["required_vehicles"] >= 2:
+                    routes[nv - 2].append(c["id"])
+        out.append({"kind": "vrp_seq", "family": f"work-vehicles{nv}", "inst": inst, "weights": dict(DEFAULT_W), "seed": rng.randrange(10**6),
+                    "start": "state0", "state0": {"routes": routes, "unassigned": un},
+                    "plan": gen_plan(rng, 6 if nv > 1000 else 12, first=False), "coq": False, "no_ic": True, "loops": {"vehicles": nv}})
+    # (d) many customers inserted one after the other from the empty plan
+    for n in ([140] if not thorough else [140, 180]):
+        inst = gen_inst_line(n, nveh=3)
+        inst["caps"] = [None, n, n // 2]
+        plan = [[rng.choice(["regret_insertion", "greedy_insertion"]), {}], ["random_removal", {"degree": 1.0}], ["greedy_insertion", {}]]
+        out.append({"kind": "vrp_seq", "family": f"work-inserted{n}", "inst": inst, "weights": dict(DEFAULT_W), "seed": rng.randrange(10**6),
+                    "start": "hand", "plan": plan, "coq": False, "no_ic": True, "loops": {"customers placed by one insertion call": n}})
+    return out
+
+
+def gen_work_solves(rng, thorough=False):
+    """class W: ALNS main loop crossing 2^7 .. 2^12 and 10^4 iterations on a tiny instance (nothing stops it early)"""
+    out = []
+    for k in ([130, 1030, 4200, 10100] if not thorough else [130, 1030, 2060, 4200, 10100, 30000]):
+        inst = gen_inst(rng, False, sizes=[2, 3])
+        while not inst["caps"]:
+            inst = gen_inst(rng, False, sizes=[2, 3])
+        out.append({"kind": "vrp_solve", "family": "work-iterations", "inst": inst, "weights": dict(DEFAULT_W), "seed": rng.randrange(10**6),
+                    "max_iter": k, "max_no_improve": 10**9, "coq": k <= 1100, "no_ic": True, "light": k > 2000})
+    return out
+
+
 def gen_solve_case(rng, big=False, family="base"):
+    if family == "extreme":
+        inside = rng.random() < 0.5
+        inst = gen_inst_extreme(rng, nonfinite=not inside and rng.random() < 0.3, inside=inside)
+        return {"kind": "vrp_solve", "family": family, "inst": inst, "weights": gen_weights_extreme(rng, inside), "seed": rng.randrange(10**6),
+                "max_iter": rng.choice([3, 10, 40, 200]), "max_no_improve": 500,
+                "cust_forms": [rng.choice(["obj", "tuple8"]) for _ in inst["customers"]], "vehicles_form": "list", "coq": False}
     if family == "scaled":
         inst = gen_inst_scaled(rng, big)
     elif family == "real":
@@ -397,7 +580,31 @@ def build(vrp, inst, fresh=False):
 _DM_CACHE = {}
 
 
+class _LazyDM:
+    """dm[i][j] computed on demand (instances with thousands of customers: no n x n table)"""
+
+    def __init__(self, pts, real):
+        self.pts, self.real = pts, real
+
+    def __len__(self):
+        return len(self.pts)
+
+    def __getitem__(self, i):
+        return _LazyRow(self, i)
+
+
+class _LazyRow:
+    def __init__(self, dm, i):
+        self.dm, self.i = dm, i
+
+    def __getitem__(self, j):
+        p, q = self.dm.pts[self.i], self.dm.pts[j]
+        return math.dist(p, q) if self.dm.real else _int_dist(p, q)
+
+
 def dist_matrix(inst):
+    if len(inst["customers"]) > 500:
+        return _LazyDM([tuple(inst["depot"])] + [(c["x"], c["y"]) for c in inst["customers"]], bool(inst.get("real")))
     key = (tuple(inst["depot"]), tuple((c["x"], c["y"]) for c in inst["customers"]), bool(inst.get("real")))
     dm = _DM_CACHE.get(key)
     if dm is None:
@@ -415,6 +622,8 @@ def dist_matrix(inst):
 def _eq(a, b, real):
     if not real:
         return a == b and not isinstance(a, bool)
+    if a == b:  # also "nan" == "nan" (canon_num) and inf == inf
+        return True
     try:
         return abs(a - b) <= 1e-9 * max(1.0, abs(a), abs(b))
     except TypeError:
@@ -424,9 +633,16 @@ def _eq(a, b, real):
 def canon_num(x):
     if isinstance(x, bool):
         return x
-    if isinstance(x, float) and x == x and abs(x) != float("inf") and x == int(x):
-        return int(x)
+    if isinstance(x, float):
+        if x != x:
+            return "nan"  # NaN != NaN would make every snapshot comparison fail
+        if abs(x) != float("inf") and x == int(x):
+            return int(x)
     return x
+
+
+def _finite(x):
+    return isinstance(x, (int, float)) and not isinstance(x, bool) and x == x and abs(x) != float("inf")
 
 
 def snapshot(st):
@@ -690,6 +906,72 @@ def hand_state(RecState, custs, vehs, snap=None, arrivals=None, fresh=False):
                     arrival_times=[[float(t) for t in a] for a in arrivals], unassigned={fid(c) for c in snap["unassigned"]})
 
 
+def _compatible_point(rng, inst, skip=None):
+    """an integer point at integer distance from the depot and every customer (except `skip`)"""
+    pts = [tuple(inst["depot"])] + [(c["x"], c["y"]) for c in inst["customers"] if c["id"] != skip]
+    if any(not isinstance(v, int) for p in pts for v in p):
+        return None
+    cand = [(x, y) for x in range(-12, 13) for y in range(-12, 13) if all(_int_dist((x, y), p) is not None for p in pts)]
+    return rng.choice(cand) if cand else None
+
+
+def inplace_edit(vrp, name, params, st, inst):
+    """Edit the state object in place the way a caller of the public dataclass would; returns (instance after the
+    edit, description) or None when the edit does not apply."""
+    rng = _random.Random(params.get("r", 0))
+    if name == "@move_out":
+        routed = sorted({c for r in st.routes for c in r})
+        if not routed:
+            return None
+        c = rng.choice(routed)
+        for r in st.routes:
+            while c in r:
+                r.remove(c)
+        st.unassigned.add(c)
+        st.update_arrival_times()
+        return inst, f"removed customer {c} from its route(s) in place, added it to unassigned"
+    if name == "@swap":
+        vs = [v for v, r in enumerate(st.routes) if len(r) >= 2]
+        if not vs:
+            return None
+        v = rng.choice(vs)
+        i, j = rng.sample(range(len(st.routes[v])), 2)
+        st.routes[v][i], st.routes[v][j] = st.routes[v][j], st.routes[v][i]
+        st.update_arrival_times()
+        return inst, f"swapped stops {i} and {j} of route {v} in place"
+    if name == "@recoord":
+        if not inst["customers"] or st._dist is not None or inst.get("real"):
+            return None
+        c = rng.choice(inst["customers"])
+        pt = _compatible_point(rng, inst, skip=c["id"])
+        if pt is None:
+            return None
+        new = _copy.deepcopy(inst)
+        nc = _cs(new)[c["id"]]
+        nc["x"], nc["y"] = pt
+        old = st.customers[c["id"]]
+        st.customers[c["id"]] = vrp.Customer(old.id, type(old.x)(pt[0]), type(old.y)(pt[1]), old.demand, old.tw_start, old.tw_end,
+                                             old.service_time, old.required_vehicles)
+        st.update_arrival_times()
+        return new, f"replaced state.customers[{c['id']}] by a Customer at {pt} (was ({c['x']}, {c['y']})) in place"
+    if name == "@append_customer":
+        if st._dist is not None or inst.get("real"):
+            return None
+        pt = _compatible_point(rng, inst)
+        if pt is None:
+            return None
+        new = _copy.deepcopy(inst)
+        cid = len(new["customers"]) + 1
+        new["customers"].append({"id": cid, "x": pt[0], "y": pt[1], "demand": rng.randint(0, 3), "tw_start": 0, "tw_end": None,
+                                 "service_time": rng.choice([0, 1]), "required_vehicles": rng.choice([1, 1, 2])})
+        nc = new["customers"][-1]
+        st.customers.append(vrp.Customer(cid, float(pt[0]), float(pt[1]), float(nc["demand"]), 0.0, float("inf"), float(nc["service_time"]),
+                                         nc["required_vehicles"]))
+        st.unassigned.add(cid)
+        return new, f"appended Customer {cid} at {pt} to state.customers in place and added it to unassigned"
+    return None
+
+
 def state_events(inst, snap, parts):
     ev = set()
     if parts["late"] > 0:
@@ -714,7 +996,7 @@ def run_seq(case):
     import importlib
 
     vrp = importlib.import_module("solvor.vrp")
-    saved_ic = vrp._insertion_cost if hasattr(vrp, "_insertion_cost") else None
+    saved_ic = vrp._insertion_cost if hasattr(vrp, "_insertion_cost") and not case.get("no_ic") else None
     if saved_ic is not None:
         vrp._insertion_cost = ic_wrapper(saved_ic)
     try:
@@ -768,23 +1050,71 @@ def _run_seq(vrp, case):
     pairs = [(i, j) for i in range(n) for j in range(n)] if n <= 12 else [((7 * k) % n, (13 * k + 1) % n) for k in range(150)]
     dist_bad = None
     for i, j in pairs:
+        if real and i == j:
+            continue  # from_problem never computes the diagonal (0.0); hypot(inf - inf) would be nan - never used by a route
         r = guarded(st.dist, i, j, timeout=5)
-        if r[0] != "ok" or not _eq(canon_num(r[1]), dm[i][j], real):
+        if r[0] != "ok" or not _eq(canon_num(r[1]), canon_num(dm[i][j]), real):
             dist_bad = f"VRPState.dist({i}, {j}) = {r[1:]} on a state built by {start}, the Euclidean distance of the two locations is {dm[i][j]}"
             break
     history = [(st, out["init"])]
     rng = RecRandom(case["seed"])
     rebuild = set(case.get("rebuild_at") or [])
+    big = len(inst["customers"]) > 50 or len(inst["caps"]) > 50
+    a2_pending = None
     for k, (name, params) in enumerate(case["plan"]):
+        if name.startswith("@"):  # class A2: the caller edits the state object in place between two operator calls
+            r = guarded(inplace_edit, vrp, name, params, st, inst, timeout=5)
+            if r[0] != "ok":
+                out["bad"] = f"step {k}: in-place edit {name} of the state through its public fields: {r}"
+                return out
+            if r[1] is None:
+                continue
+            inst, what = r[1]
+            out["inst_final"] = inst
+            out["events"].add(f"in-place edit: {name[1:]}")
+            snap = snapshot(st)
+            errs = check_state(inst, snap)
+            if not errs:
+                parts = objective_parts(inst, snap)
+                o1 = guarded(vrp.vrp_objective, st, timeout=5, **wkw(case["weights"]))
+                o2 = guarded(vrp.vrp_objective, _copy.deepcopy(st), timeout=5, **wkw(case["weights"]))
+                want = canon_num(objective_formula(inst, case["weights"], snap, parts))
+                if o1[0] != "ok" or o2[0] != "ok" or not _eq(canon_num(o1[1]), want, real) or canon_num(o1[1]) != canon_num(o2[1]):
+                    errs = [f"vrp_objective(state) = {o1[1:]}, on a deep copy {o2[1:]}, the documented weighted sum of the edited state is {want}"]
+                else:
+                    m = methods_check(inst, st, snap, parts)
+                    if m:
+                        errs = [m]
+            if errs:
+                out["bad"] = (f"step {k}: after the caller {what} and called update_arrival_times() (state now routes {_short(snap['routes'])} "
+                              f"unassigned {_short(snap['unassigned'])} arrival_times {_short(snap['arrivals'])}): {errs[0]}")
+                return out
+            history = [(st, snap)]  # earlier states share the (edited) customers list; only this one is tracked from here
+            a2_pending = what
+            continue
         if k in rebuild:  # class A: re-build the state from its public fields with the dataclass constructor
             st = hand_state(RecState, custs, vehs, snapshot(st), [list(a) for a in st.arrival_times], fresh)
             history.append((st, snapshot(st)))
         orig = getattr(vrp, name)
-        res = guarded(call_op, vrp, orig, name, st, rng, _args(name, params), timeout=20 if len(inst["customers"]) > 50 else 5)
+        ref = None
+        if a2_pending:
+            ref = guarded(lambda: snapshot(orig(_copy.deepcopy(st), _copy.deepcopy(rng), *_args(name, params))), timeout=5)
+        res = guarded(call_op, vrp, orig, name, st, rng, _args(name, params), timeout=150 if big else 5)
+        if res[0] == "exc" and inst.get("nonfinite"):
+            out["events"].add("raises on inf / NaN input")  # acceptable: the input is outside the numbers the operators can order
+            return out
         if res[0] != "ok":
             out["steps"].append({"op": name, "args": list(_args(name, params)), "pre": snapshot(st), "post": None, "oracle": None})
             out["bad"] = f"step {k} {name}{tuple(_args(name, params))}: implementation {res[0]} {res[1:]}"
             return out
+        if ref is not None:
+            if ref[0] != "ok" or ref[1] != res[1][1]["post"]:
+                out["steps"].append(res[1][1])
+                out["bad"] = (f"step {k} {name}{tuple(_args(name, params))} after the caller {a2_pending}: on the edited object -> routes "
+                              f"{_short(res[1][1]['post']['routes'])} unassigned {_short(res[1][1]['post']['unassigned'])}, on a deep copy of it -> "
+                              f"{_short(ref[1]) if ref[0] == 'ok' else ref}")
+                return out
+            a2_pending = None
         st, rec = res[1]
         history.append((st, rec["post"]))
         r2 = guarded(vrp.vrp_objective, st, timeout=5, **wkw(case["weights"]))
@@ -799,7 +1129,7 @@ def _run_seq(vrp, case):
             errs = [f"vrp_objective: {r2}"]
         if not errs:
             parts = objective_parts(inst, rec["post"])
-            want = objective_formula(inst, case["weights"], rec["post"], parts)
+            want = canon_num(objective_formula(inst, case["weights"], rec["post"], parts))
             if not _eq(rec["obj"], want, real):
                 errs = [f"vrp_objective(state) = {rec['obj']} but the documented weighted sum of the state is {want}"]
             else:
@@ -869,8 +1199,65 @@ def solve_args(vrp, case, custs, vehs):
     return customers, vehicles, depot, kw
 
 
+def mutate_inst(rng, inst):
+    """another instance of the same kind: one customer elsewhere / one customer more / one customer fewer"""
+    new = _copy.deepcopy(inst)
+    kind = rng.choice(["recoord", "recoord", "append", "pop"])
+    if kind == "pop" and len(new["customers"]) >= 2:
+        new["customers"].pop()
+        return new, "removed the last customer"
+    if kind == "append":
+        pt = _compatible_point(rng, new)
+        if pt is not None:
+            cid = len(new["customers"]) + 1
+            new["customers"].append({"id": cid, "x": pt[0], "y": pt[1], "demand": rng.randint(0, 3), "tw_start": 0, "tw_end": None,
+                                     "service_time": 0, "required_vehicles": rng.choice([1, 2])})
+            return new, f"appended customer {cid} at {pt}"
+    if new["customers"]:
+        c = rng.choice(new["customers"])
+        pt = _compatible_point(rng, new, skip=c["id"])
+        if pt is not None and pt != (c["x"], c["y"]):
+            c["x"], c["y"] = pt
+            return new, f"replaced customer {c['id']} by one at {pt}"
+    return None, None
+
+
+def run_solve_inplace(case):
+    """class A2: solve, then edit the SAME customers / vehicles list objects in place, solve again; the second answer must
+    be the answer of a call on freshly built objects"""
+    import importlib
+
+    vrp = importlib.import_module("solvor.vrp")
+    rng = _random.Random(case["seed"])
+    case = {**case, "container": "list", "vehicles_form": "list"}
+    custs, vehs = build(vrp, case["inst"])
+    args = list(solve_args(vrp, case, custs, vehs))
+    out1 = _run_solve(case, prebuilt=args)
+    if out1["bad"] or not out1["result"]:
+        return out1
+    inst2, what = mutate_inst(rng, case["inst"])
+    if inst2 is None:
+        return out1
+    case2 = {**case, "inst": inst2, "cust_forms": None, "weights": case["weights"]}
+    c2, v2 = build(vrp, inst2)
+    a2 = solve_args(vrp, case2, c2, v2)
+    args[0][:] = a2[0]  # same list object, new content
+    if rng.random() < 0.5:
+        args[1][:] = [vrp.Vehicle(v.id, v.capacity) for v in v2][::-1][::-1]
+    out2 = _run_solve(case2, prebuilt=args)
+    fresh = _run_solve(case2)
+    out2["events"].add("in-place edit of the customers list between two solves")
+    out2["case2"] = case2
+    if not out2["bad"] and out2["result"] != fresh["result"]:
+        out2["bad"] = (f"solve_vrptw: after a first solve the caller {what} IN PLACE (same list object) and solved again: {out2['result']}; "
+                       f"the same call on freshly built lists gives {fresh['result']}")
+    return out2
+
+
 def run_solve(case):
     """solve_vrptw end to end with the exported operators, VRPState and Random wrapped for recording."""
+    if case.get("inplace"):
+        return run_solve_inplace(case)
     out = _run_solve(case)
     if case.get("twice") and not out["bad"] and out["result"]:
         # class A: the same call again (after an unrelated solve in between) gives the same answer
@@ -882,7 +1269,7 @@ def run_solve(case):
     return out
 
 
-def _run_solve(case):
+def _run_solve(case, prebuilt=None):
     import importlib
 
     lns = importlib.import_module("solvor.lns")  # `solvor.lns` the attribute is the function lns
@@ -926,7 +1313,7 @@ def _run_solve(case):
 
         kw["on_progress"] = cb
         kw["progress_interval"] = op["interval"]
-    customers, vehicles, depot, kw2 = solve_args(vrp, case, custs, vehs)
+    customers, vehicles, depot, kw2 = prebuilt if prebuilt is not None else solve_args(vrp, case, custs, vehs)
     kw.update(kw2)
     before = (_copy.deepcopy(customers), _copy.deepcopy(vehicles), _copy.deepcopy(depot))
     saved = {"VRPState": vrp.VRPState, "vrpRandom": vrp.Random, "lnsRandom": lns.Random, "ic": getattr(vrp, "_insertion_cost", None)}
@@ -936,13 +1323,14 @@ def _run_solve(case):
         vrp.VRPState = RecState
         vrp.Random = RecRandom
         lns.Random = RecRandom
-        if saved["ic"] is not None:
+        if saved["ic"] is not None and not case.get("no_ic"):
             vrp._insertion_cost = ic_wrapper(saved["ic"])
         w = case["weights"]
         res = guarded(vrp.solve_vrptw, customers, vehicles, depot,
                       distance_weight=w["distance_weight"], vehicle_weight=w["vehicle_weight"], tw_penalty=w["tw_penalty"],
                       capacity_penalty=w["capacity_penalty"], sync_penalty=w["sync_penalty"],
-                      max_iter=case["max_iter"], max_no_improve=case["max_no_improve"], seed=case["seed"], timeout=30, **kw)
+                      max_iter=case["max_iter"], max_no_improve=case["max_no_improve"], seed=case["seed"],
+                      timeout=30 if case["max_iter"] <= 2000 else 120, **kw)
     finally:
         for name in OPS:
             setattr(vrp, name, origs[name])
@@ -953,6 +1341,9 @@ def _run_solve(case):
             vrp._insertion_cost = saved["ic"]
         _Sink.depth = 0
     out["records"] = [{k: v for k, v in r.items() if k not in ("pre_id", "post_id")} for r in records]
+    if res[0] == "exc" and inst.get("nonfinite"):
+        out["events"].add("raises on inf / NaN input")
+        return out
     if res[0] != "ok":
         out["bad"] = f"solve_vrptw: implementation {res[0]} {res[1:]}"
         return out
@@ -990,7 +1381,7 @@ def _run_solve(case):
         objs.append(objective_formula(inst, w, rec["post"]))
     errs = check_state(inst, out["result"]["state"])
     if not errs:
-        want = objective_formula(inst, w, out["result"]["state"])
+        want = canon_num(objective_formula(inst, w, out["result"]["state"]))
         if not _eq(out["result"]["objective"], want, real):
             errs = [f"objective {out['result']['objective']} but the documented weighted sum of the returned state is {want}"]
     if not errs and out["shape_ok"] and objs:
@@ -1012,6 +1403,24 @@ def _run_solve(case):
                 out["events"].add("alns: candidate rejected")
         if n_it >= 100:
             out["events"].add("alns: operator weights updated (iteration 100)")
+        # class W: the main loop runs until max_iter or until max_no_improve iterations passed without a new best (or the
+        # call-back stops it) - not fewer, not more (the scores are exact integers here, so the replay below is exact)
+        if not real and op is None and not errs:
+            best, best_iter = cands[0], 0
+            for i in range(1, n_it + 1):
+                if cands[i] < best:
+                    best, best_iter = cands[i], i
+                if i - best_iter >= case["max_no_improve"] and i < n_it:
+                    errs = [f"{n_it} iterations run although iteration {i} was already {i - best_iter} iterations after the last new best "
+                            f"(iteration {best_iter}) with max_no_improve={case['max_no_improve']}"]
+                    break
+            if not errs and n_it < case["max_iter"] and n_it - best_iter < case["max_no_improve"]:
+                errs = [f"the search stopped after {n_it} of max_iter={case['max_iter']} iterations, {n_it - best_iter} iterations after its "
+                        f"last new best (iteration {best_iter}), with max_no_improve={case['max_no_improve']} and no call-back"]
+            if not errs and n_it > max(0, case["max_iter"]):
+                errs = [f"{n_it} iterations run with max_iter={case['max_iter']}"]
+            if not errs and out["result"]["iterations"] != n_it:
+                errs = [f"{out['result']['iterations']} iterations reported, {n_it} (destroy, repair) pairs run"]
         if op is None and n_it < case["max_iter"]:
             out["events"].add("alns: stops on max_no_improve")
     if not errs and op is not None:
@@ -1033,11 +1442,28 @@ def _run_solve(case):
 
 
 # ---------------------------------------------------------------- independent oracle (the contract)
+_CS_CACHE = {}
+
+
+def _cs(inst):
+    """customers by id (cached per instance object: big instances are looked up thousands of times)"""
+    key = id(inst["customers"])
+    hit = _CS_CACHE.get(key)
+    if hit is None or hit[0] is not inst["customers"] or len(hit[1]) != len(inst["customers"]):
+        if len(_CS_CACHE) > 200:
+            _CS_CACHE.clear()
+        hit = (inst["customers"], {c["id"]: c for c in inst["customers"]})
+        _CS_CACHE[key] = hit
+    return hit[1]
+
+
 def arrivals_from_scratch(inst, route):
     """leave the depot at time 0, travel = Euclidean distance, wait until tw_start, arrival is recorded after
     waiting, then service_time, then travel to the next customer"""
+    if not route:
+        return []
     dm = dist_matrix(inst)
-    cs = {c["id"]: c for c in inst["customers"]}
+    cs = _cs(inst)
     out = []
     t, prev = 0, 0
     for c in route:
@@ -1067,20 +1493,29 @@ def check_state(inst, snap):
             errs.append(f"unassigned contains {c}, which is not a customer")
     if errs:
         return errs
+    on_map = {}
+    for v, r in enumerate(routes):
+        cnt = {}
+        for c in r:
+            cnt[c] = cnt.get(c, 0) + 1
+        for c, k in cnt.items():
+            on_map.setdefault(c, []).append(v)
+            if k > 1:
+                errs.append(f"customer {c} is {k} times on route {v}")
+    unset = set(un)
     for cid in ids:
-        on = [v for v, r in enumerate(routes) if cid in r]
-        if cid in un and on:
+        on = on_map.get(cid, [])
+        if cid in unset and on:
             errs.append(f"customer {cid} is in unassigned AND on route(s) {on}")
-        if cid not in un and not on:
+        if cid not in unset and not on:
             errs.append(f"customer {cid} is lost: neither in unassigned nor on a route")
-        for v, r in enumerate(routes):
-            if r.count(cid) > 1:
-                errs.append(f"customer {cid} is {r.count(cid)} times on route {v}")
         if cs[cid]["required_vehicles"] <= 1 and len(on) > 1:
             errs.append(f"single-vehicle customer {cid} is on routes {on}")
     real = inst.get("real")
     for v, r in enumerate(routes):
-        want = arrivals_from_scratch(inst, r)
+        if not r and not arr[v]:
+            continue
+        want = [canon_num(t) for t in arrivals_from_scratch(inst, r)]
         if len(arr[v]) != len(want) or not all(_eq(a, b, real) for a, b in zip(arr[v], want)):
             errs.append(f"arrival_times[{v}] = {arr[v][:12]} but route {r[:12]} (travel, waiting, service from the coordinates) gives {want[:12]}")
     return errs
@@ -1141,8 +1576,10 @@ def methods_check(inst, st, snap, parts):
         r = guarded(getattr(st, name), timeout=5)
         if r[0] != "ok":
             return f"VRPState.{name}(): {r}"
-        if not _eq(canon_num(r[1]), want, real):
+        if not _eq(canon_num(r[1]), canon_num(want), real):
             return f"VRPState.{name}() = {r[1]} but the state has {want}"
+    if not all(_finite(parts[k]) for k in ("late", "overload", "sync")):
+        return None
     r = guarded(st.is_feasible, timeout=5)
     feas = not snap["unassigned"] and (parts["late"] < 1e-6 and parts["overload"] < 1e-6 and parts["sync"] < 1e-6)
     margin = real and any(abs(parts[k] - 1e-6) < 1e-8 for k in ("late", "overload", "sync"))
@@ -1403,13 +1840,40 @@ def run_part(ctx: Ctx):
         seq_cases += [gen_seq_case(rng, big, family) for _ in range(ctx.budget(q, t))]
     for n, q, t in ((17, 2, 10), (70, 1, 4), (400, 1, 2)):
         seq_cases += [gen_big_seq_case(rng, n) for _ in range(ctx.budget(q, t))]
+    seq_cases += [gen_seq_case(rng, big, "extreme") for _ in range(ctx.budget(30, 400))]   # class X
+    seq_cases += [gen_a2_case(rng, big) for _ in range(ctx.budget(20, 300))]                # class A2
+    seq_cases = gen_work_seq_cases(rng, big) + seq_cases                                    # class W (slowest first)
     for family, q, t in (("base", 40, 800), ("forms", 15, 150), ("progress", 10, 100), ("scaled", 8, 100), ("real", 6, 60)):
         solve_cases += [gen_solve_case(rng, big, family) for _ in range(ctx.budget(q, t))]
     solve_cases += gen_sweep_solves(rng, 20 if not big else 40)
+    solve_cases += [gen_solve_case(rng, big, "extreme") for _ in range(ctx.budget(12, 150))]
+    for _ in range(ctx.budget(10, 100)):
+        c = gen_solve_case(rng, big, "base")
+        c.update({"family": "inplace", "inplace": True, "coq": False, "max_iter": rng.choice([3, 10, 25])})
+        c.pop("twice", None)
+        solve_cases.append(c)
+    solve_cases = gen_work_solves(rng, big) + solve_cases
     spec_budget = ctx.budget(1500, 20000)  # implementation states handed to the Coq checker spec_chk
 
     seq_outs = pmap(run_seq, seq_cases)
     solve_outs = pmap(run_solve, solve_cases)
+
+    # POLICY_X: cases outside the quantifier are observation-only - counted, then dropped before any judging
+    def observe(cases, outs, label):
+        keep_c, keep_o = [], []
+        for c, o in zip(cases, outs):
+            if outside_quantifier(c):
+                outcome = "ok" if not o["bad"] else ("hang" if "hang" in o["bad"] else ("raises" if "implementation exc" in o["bad"] else "other answer"))
+                if "raises on inf / NaN input" in (o.get("events") or ()):
+                    outcome = "raises"
+                ctx.count("observation_only", f"{label}: {outcome}")
+            else:
+                keep_c.append(c)
+                keep_o.append(o)
+        return keep_c, keep_o
+
+    seq_cases, seq_outs = observe(seq_cases, seq_outs, "operator sequence on inf / NaN / >= 2^53 data")
+    solve_cases, solve_outs = observe(solve_cases, solve_outs, "solve_vrptw on inf / NaN / >= 2^53 data")
 
     # class H: rare internal events - count them, and look for the ones not seen yet in families that favour them
     seen = set()
@@ -1439,6 +1903,10 @@ def run_part(ctx: Ctx):
             ctx.count("vrp_event_NOT_SEEN", e)
 
     trace_terms, trace_meta, spec_terms, spec_meta, ftrace_terms, spec_cands = [], [], [], [], [], []
+    loop_max = {}
+
+    def loop(name, k):
+        loop_max[name] = max(loop_max.get(name, 0), k)
     n_viol = 0
     for case, out in zip(seq_cases, seq_outs):
         ctx.evaluations += len(out["steps"])
@@ -1453,9 +1921,19 @@ def run_part(ctx: Ctx):
             ctx.count("vrp_capacity", cap if len(cap) < 6 else "huge")
         for e in out.get("events") or ():
             ctx.count("vrp_event", e)
+        loop("vehicles", len(inst["caps"]))
         for s in out["steps"]:
             if s["post"] is None:
                 continue
+            loop("stops on one route (arrival recomputation, lateness, removal filters, worst_removal ranking)",
+                 max([len(r) for r in s["pre"]["routes"]] + [0]))
+            if s["op"] in INSERTIONS:
+                placed = len(set(s["pre"]["unassigned"]) - set(s["post"]["unassigned"]))
+                loop("customers placed by one insertion call (greedy loop / regret passes)", placed)
+                if s["pre"]["unassigned"]:
+                    loop("insertion positions scanned for one customer", sum(len(r) + 1 for r in s["pre"]["routes"]))
+            else:
+                loop("customers removed by one removal call", len(set(s["post"]["unassigned"]) - set(s["pre"]["unassigned"])))
             ctx.count("vrp_op", s["op"])
             ctx.count("vrp_op_args", f"{s['op']}{tuple(s['args'])}")
             if s["op"] in REMOVALS:
@@ -1507,9 +1985,11 @@ def run_part(ctx: Ctx):
             ctx.count("vrp_solve_iterations", it if it <= 3 else ("4-10" if it <= 10 else ("11-25" if it <= 25 else "26+")))
             ctx.count("vrp_solve_unassigned", len(out["result"]["state"]["unassigned"]))
             ctx.count("vrp_solve_accepts", sum(out["acc"]))
+        if out["result"]:
+            loop("alns iterations in one solve", out["result"]["iterations"])
         if out["bad"]:
             ctx.violation(f"vrp: {out['bad']}", {**case, "impl": out["result"]})
-        if out["result"] is None:
+        if out["result"] is None or not case.get("coq", True) and not out.get("shape_ok"):
             continue
         if len(out["records"]) >= 3:
             ctx.nontriv(json.dumps(case, sort_keys=True))
@@ -1518,7 +1998,7 @@ def run_part(ctx: Ctx):
                           "the recorded call sequence cannot be replayed through the model",
                           {**case, "calls": [r["op"] for r in out["records"]]}, no_input=True)
             continue
-        if case["inst"].get("real") or not (snap_ok(out["result"]["state"]) and isinstance(out["result"]["objective"], int)
+        if case["inst"].get("real") or not case.get("coq", True) or not (snap_ok(out["result"]["state"]) and isinstance(out["result"]["objective"], int)
                                             and all(snap_ok(r["post"]) for r in out["records"])):
             continue
         solve_terms.append(c_solve_case(case, out))
@@ -1598,6 +2078,11 @@ def run_part(ctx: Ctx):
                                   "state, objective)", {**case, "impl": out["result"], "model": model[-1500:],
                                                         "lemma": "Cases/C18/vrp_solve_*.v corr"}, no_input=True)
 
+    ctx.extra["vrp_loop_max"] = loop_max  # class W: the largest iteration count reached per loop in this run
+    for name, k in loop_max.items():
+        for thr in (2**7, 2**10, 2**11, 2**12, 10**4, 10**5):
+            if k >= thr:
+                ctx.count("vrp_loop_crossed", f"{name} >= {thr}")
     ctx.notes += [
         "vrp: instances have integer coordinates with integer pairwise Euclidean distances (checked on every run: VRPState._dist "
         "equals the exact integer matrix, i.e. float hypot is exact on these), integer time windows / service times / demands / "
@@ -1614,6 +2099,15 @@ def run_part(ctx: Ctx):
         "the code's formula), iteration orders of the set `unassigned` (logged by a set subclass), n_remove of related_removal "
         "(taken as the number of customers actually removed)",
         "vrp: sync_assignments is not modelled (nothing reads it); on_progress only cuts the list of iterations the model replays",
+        "vrp round-3 families: W - one route with 10^4 stops (removal operators, scoring), 2^12 insertion positions for one (two-vehicle) "
+        "customer, 10^4 vehicles, 140 customers inserted by one greedy / regret call, ALNS loops of 130 .. 10^4 iterations whose iteration "
+        "count is replayed exactly from the recorded scores (max_iter / max_no_improve) - all judged by the Python oracle, not by Coq; "
+        "A2 - the caller edits the state object (or the customers list between two solves) in place; the next call must agree with the "
+        "call on a deep copy / on freshly built objects and with the oracle for the edited instance; X - judged: -0.0, denormals, 1e-300, integral floats vs ints, "
+        "zero / fractional weights (bookkeeping exact, arrival times / objective by the same float operations in the documented order); "
+        "OBSERVATION-ONLY (outside the quantifier, POLICY_X a-c; histogram observation_only; never a violation): inf / NaN entries, finite "
+        "values >= 2^53 incl. coordinates near 1e308 whose insertion costs overflow to inf (on those sync_aware_insertion / solve_vrptw "
+        "may raise ValueError 'min() iterable argument is empty' or leave any answer) and +-2^60",
         "vrp round-2 families: states built / re-built with the public VRPState dataclass (no _dist) must behave like from_problem "
         "states (twin run) and obey the same oracle; operators must not modify the state they are given nor any state returned "
         "earlier; same call twice gives the same answer; VRPState.total_distance / time_window_violation / capacity_violation / "
